@@ -447,6 +447,15 @@ func genEchoCase(r *kit.Rand, thorough bool, i int) []string {
 			ops = append(ops, "sleep 1700")
 		}
 	}
+	if slow && poison < 0 {
+		// the request stream stalls between the two Write calls (length, payload) of the next data message for
+		// longer than the keepalive interval (timeout/2 = 1.5 s): a keepalive falls due in the middle of a message
+		if pendingSnap {
+			ops = append(ops, "join")
+		}
+		ops = append(ops, "stall 1700")
+		ops = append(ops, "pt "+genPoint(r, thorough).token())
+	}
 	ops = append(ops, "out")
 	return ops
 }
